@@ -129,11 +129,18 @@ def oracle_case(build, tree, selectors, results, cfg):
     for p, v in paths:
         bytext[".".join(p)].append(p)
     for sel, r in zip(selectors, results):
-        addressed = bytext.get(sel, [])
-        # A selector into granular_markings / object_marking_refs is judged on the queries only: a
-        # mutator (and construction with one more granular marking) changes what such a selector
-        # addresses, and the rebuilt object is re-validated against its own new marking lists.
-        self_ref = sel.split(".")[0] in ("granular_markings", "object_marking_refs")
+        if isinstance(sel, list):
+            if not sel:
+                continue                      # an empty list has no selector to judge (correspondence only)
+            per = [bytext.get(x, []) for x in sel]
+            addressed = [p for ps in per for p in ps] if all(per) else []
+            self_ref = any(x.split(".")[0] in ("granular_markings", "object_marking_refs") for x in sel)
+        else:
+            addressed = bytext.get(sel, [])
+            # A selector into granular_markings / object_marking_refs is judged on the queries only: a
+            # mutator (and construction with one more granular marking) changes what such a selector
+            # addresses, and the rebuilt object is re-validated against its own new marking lists.
+            self_ref = sel.split(".")[0] in ("granular_markings", "object_marking_refs")
         for fn in FUNCS:
             o = r[fn]
             if o == "n/a" or (self_ref and fn in ("add", "remove", "clear", "set", "ctor")):
@@ -189,12 +196,18 @@ def run_cases(run, builds, cfg, max_real=60, max_near=14, tag="c08"):
         near = G.near_misses(rng, r["tree"], paths, 6)
         if len(near) > max_near:
             near = near[:4] + rng.sample(near[4:], max_near - 4)
-        cases.append({"build": b, "kind": "c08", "selectors": real + near})
+        multi = []
+        if real:
+            g1, g2 = rng.choice(real), rng.choice(real)
+            bad = rng.choice(near)
+            multi = [[g1, g2], [g1, bad], [bad, g1], [g1, g1], [g1, g2, bad], []]
+        cases.append({"build": b, "kind": "c08", "selectors": real + near + multi})
         terms_info.append(term)
     impl = common.run_impl("c07_impl", cases)
     terms = []
     for c, term in zip(cases, terms_info):
-        terms.append("c08_lines %s %s %s" % (G.coq_cfg(cfg), term, G.coq_ulist(c["selectors"])))
+        terms.append("c08_lines %s %s %s" % (G.coq_cfg(cfg), term, common.coq_list(
+            [G.coq_ulist(x if isinstance(x, list) else [x]) for x in c["selectors"]])))
         terms.append("show_paths %s %s" % (G.coq_cfg(cfg), term))
     model = None
     try:
@@ -202,6 +215,61 @@ def run_cases(run, builds, cfg, max_real=60, max_near=14, tag="c08"):
     except RuntimeError as e:
         run.broken.append(Broken("correspondence", "model evaluation failed", {"error": str(e)[-1500:]}))
     return cases, impl, model
+
+
+def syntax_strings(rng, n_random):
+    """Strings around the selector syntax: the length bounds of a first / later
+    segment, index forms, the `$`-before-newline rule, upper case, separators."""
+    ks = "abcxyz019_-"
+    out = ["id", "id\n", "id\n\n", "idx", "id.x", "i", "", "\n", ".", "..", "a.b", "abc", "abc.", ".abc", "abc..d",
+           "abc.d", "abc.D", "Abc.d", "abc.dE-f_9", "ABC", "abc.[0]", "abc.[12]", "abc.[012]", "abc.[]", "abc.[a]",
+           "abc.[1", "abc.1]", "abc.[1]x", "abc.x[1]", "abc[1]", "[0]", "[0].abc", "abc.[0].[1]", "abc.[0].d.[2].e",
+           "abc.[-1]", "abc.[ 1]", "abc.[1 ]", "abc.[1]\n", "abc\n", "abc\n\n", "abc\n.d", "abc.d\n", "abc d",
+           "abc.d e", "abc.d/e", "ab", "a-b", "a_b", "---", "___", "0ab", "abc.-", "abc._", "abc.0", "abc.d.",
+           "abc.[1].", "abc.\u00e9", "\u00e9bc", "abc.[1][2]", "abc.[1].[2]", "abc.d\t", "abc\r", "abc.[1]\r\n"]
+    for n in (1, 2, 3, 4, 249, 250, 251, 252, 500):
+        out.append("a" * n)
+        out.append("abc." + "b" * n)
+        out.append("abc." + "B" * n)
+        out.append("a" * n + ".[7]")
+        out.append("abc.[" + "7" * n + "]")
+        out.append("a" * n + "\n")
+    for _ in range(n_random):
+        segs = []
+        for j in range(rng.choice([1, 1, 2, 3, 4])):
+            r = rng.random()
+            if r < 0.25:
+                segs.append("[%s]" % "".join(rng.choice("0123456789") for _ in range(rng.choice([0, 1, 1, 2, 3]))))
+            else:
+                pool = ks + ("ABZ" if rng.random() < 0.3 else "") + (".[] \n" if rng.random() < 0.15 else "")
+                segs.append("".join(rng.choice(pool) for _ in range(rng.choice([0, 1, 2, 3, 3, 4, 6, 10]))))
+        t = ".".join(segs)
+        if rng.random() < 0.1:
+            t += "\n"
+        out.append(t)
+    return list(dict.fromkeys(out))
+
+
+def syntax_correspondence(run, cfg, n_random):
+    strings = syntax_strings(run.rng, n_random)
+    res = common.run_impl("c07_impl", [{"kind": "syntax", "strings": strings}], procs=1)[0]["syntax"]
+    terms = ["show_bool (selector_syntax_ok %s %s)" % (G.coq_cfg(cfg), common.coq_ustr(x)) for x in strings]
+    try:
+        model = common.coq_eval_lines("c08s", HEADER, terms, shard=120)
+    except RuntimeError as e:
+        run.broken.append(Broken("correspondence", "model evaluation failed (selector syntax)", {"error": str(e)[-1500:]}))
+        return
+    dis = []
+    for x, a, b in zip(strings, res, model):
+        run.count({"syntax": x}, nontrivial=True)
+        ia = "true" if a is True else ("false" if a is False else str(a))
+        if ia != b:
+            dis.append({"string": x, "impl": ia, "model": b})
+    run.coverage["syntax_strings"] = len(strings)
+    run.coverage["syntax_accepted"] = sum(1 for a in res if a is True)
+    if dis:
+        run.broken.append(Broken("correspondence", "selector_syntax_ok (variant %s) vs SelectorProperty.clean" % cfg["syntax"],
+                                 {"first": dis[:5]}))
 
 
 def full_cfg(cfg):
@@ -243,6 +311,7 @@ def check(run):
                 FINDING_OF_TAG[tag][2]))
     builds = [G.gen_build(run.rng) for _ in range(n_objects)]
     cases, impl, model = run_cases(run, builds, cfg)
+    syntax_correspondence(run, cfg, 3000 if thorough else 300)
     hist = collections.Counter()
     dis = []
     k = 0
@@ -253,7 +322,8 @@ def check(run):
         lines = " ".join(impl_line(x) for x in r["results"])
         paths_line = G.toks(sorted(r["iterpath"]))
         for sel, x in zip(c["selectors"], r["results"]):
-            run.count({"b": c["build"], "s": sel}, nontrivial=sel not in ("nonexistent", "", "id.x", "type.[0]"))
+            run.count({"b": c["build"], "s": sel},
+                      nontrivial=isinstance(sel, list) or sel not in ("nonexistent", "", "id.x", "type.[0]"))
             hist["%s/%s" % (c["build"]["how"], x["validate"])] += 1
         if model is not None:
             m_lines, m_paths = model[2 * i], model[2 * i + 1]
@@ -286,7 +356,35 @@ def check(run):
     ]
 
 
+def replay_disagreements(payload):
+    """A replay file without a failing input names what no longer checks; re-run the recorded
+    model/implementation disagreements on the implementation and say whether they persist."""
+    still = 0
+    for b in payload.get("no_longer_checks", []):
+        print("no longer checks: %s %s" % (b.get("kind"), b.get("name")))
+        for d in (b.get("detail") or {}).get("first", []) or []:
+            if "string" in d:
+                got = common.run_impl("c07_impl", [{"kind": "syntax", "strings": [d["string"]]}], procs=1)[0]["syntax"][0]
+                got = "true" if got is True else ("false" if got is False else str(got))
+                print("  selector syntax of %r: implementation=%s model=%s" % (d["string"], got, d["model"]))
+                still += got != d["model"]
+            elif "selector" in d:
+                res = common.run_impl("c07_impl", [{"build": d["build"], "kind": "c08", "selectors": [d["selector"]]}], procs=1)[0]
+                got = impl_line(res["results"][0]) if "results" in res else str(res)
+                print("  selector %r on %s %s: implementation=%s model=%s (validate get is_marked add remove clear set ctor)" % (
+                    d["selector"], d["build"]["how"], d["build"]["data"].get("type"), got, d["model"]))
+                still += got != d["model"]
+    if still:
+        print("the model of the marking code (for which the theorems are proved) still disagrees with the implementation")
+        print("VIOLATION property=C08 replay=(given) no-failing-input-found")
+        return 1
+    print("nothing recorded here reproduces")
+    return 0
+
+
 def replay(payload):
+    if "replay" not in payload:
+        return replay_disagreements(payload)
     r = payload["replay"]
     case = {"build": r["build"], "kind": "c08", "selectors": [r["selector"]]}
     res = common.run_impl("c07_impl", [case], procs=1)[0]
@@ -294,12 +392,13 @@ def replay(payload):
         print("replay: the object could not be built: %s" % res)
         return 0
     o = res["results"][0]
-    addressed = bool(G.addressed(res["tree"], r["selector"]))
+    sel_l = r["selector"] if isinstance(r["selector"], list) else [r["selector"]]
+    addressed = bool(sel_l) and all(G.addressed(res["tree"], x) for x in sel_l)
     print("replay selector %r on %s %s: addresses something=%s" % (r["selector"], r["build"]["how"],
                                                                   r["build"]["data"].get("type"), addressed))
     print("  observed: %s" % impl_long(o))
     bad = []
-    self_ref = r["selector"].split(".")[0] in ("granular_markings", "object_marking_refs")
+    self_ref = any(x.split(".")[0] in ("granular_markings", "object_marking_refs") for x in sel_l)
     for fn in FUNCS:
         if o[fn] == "n/a" or (self_ref and fn in ("add", "remove", "clear", "set", "ctor")):
             continue
